@@ -25,7 +25,7 @@ BUDGET = {"quick": 900, "thorough": 3400}
 
 META = dict(
     rule="(A) prefix tree: each of the 11 test functions x 1-5 parameter sets x every series of length 0..N over "
-         "{0,1,3,NaN} as ndarray, as masked array (missing = masked with 999 underneath, length N-1) and over {0,1,3,NaN,None} as python list (positions: 7 lon/lat pairs incl. each "
+         "{0,1,3,NaN} as ndarray, as masked array (missing = masked with 999 underneath; masked arrays and lists to length N-1) and over {0,1,3,NaN,None} as python list (positions: 7 lon/lat pairs incl. each "
          "coordinate NaN/None), aux inputs = regular 60 s axis, depth ramp and the data's missing pattern shifted by "
          "one; each state executes the real function twice on the same argument objects with a call on another series of the same length in between and checks: no exception, one "
          "flag per element, input shape, every flag in {1,2,3,4,9}, no masked flag, argument objects byte-identical "
@@ -54,7 +54,7 @@ def tasks(tier):
                     sig = "nd"
                 else:
                     sig = "nd" if how in ("ma", "ma2") else how
-                ts.append(("A", name, ci, how, sig, n - 1 if how in ("ma", "ma2") else n))
+                ts.append(("A", name, ci, how, sig, n if how == "nd" else n - 1))
     ops = len(OPS)
     for first in range(ops):
         for second in range(-1, ops):
@@ -229,10 +229,21 @@ def module_state():
     return hash(tuple(st))
 
 
+def reset_modules():
+    """every history starts from the library's initial module state"""
+    import importlib
+
+    for mn in ("utils", "qartod", "argo", "axds"):
+        importlib.reload(importlib.import_module(f"ioos_qc.{mn}"))
+
+
 def baseline():
     if not _BASE:
+        reset_modules()
         for i in range(len(OPS)):
+            reset_modules()
             _BASE[i] = Shared().call(i)
+        reset_modules()
         _BASE["objs"] = {k: G.fingerprint(v) for k, v in Shared().objects().items()}
         _BASE["mod"] = module_state()
     return _BASE
@@ -241,6 +252,7 @@ def baseline():
 def check_history(case):
     hist = case["ops"]
     base = baseline()
+    reset_modules()
     sh = Shared()
     vs = []
     obs = []
